@@ -109,8 +109,15 @@ func runHLCScript(trNo int, scratch string, acts []HLCAct) ([]HLCLine, error) {
 	lines := []HLCLine{{K: "line", Kind: "reset", Tr: trNo, Mode: "hlc", Vals: map[string][]int64{"m": {}, "d": {}}}}
 	nwrite, nmeta := 0, 0
 	lastIssued := map[string]uint64{}
-	write := func(hb *hlcBucket, n int) (op string, key string, casOut uint64, err error) {
+	write := func(hb *hlcBucket, n int, inC1 bool) (op string, key string, casOut uint64, err error) {
 		c := hb.c
+		if inC1 {
+			ds, derr := hb.b.NamedDataStore(dsName("c1"))
+			if derr != nil {
+				return "open-c1", "", 0, derr
+			}
+			c = ds.(*rosmar.Collection)
+		}
 		key = fmt.Sprintf("w%d", n)
 		defer func() {
 			if p := recover(); p != nil {
@@ -142,7 +149,9 @@ func runHLCScript(trNo int, scratch string, acts []HLCAct) ([]HLCLine, error) {
 		case 7:
 			op = "Set+Remove"
 			if err = c.Set(key, 0, nil, []byte(`{"v":7}`)); err == nil {
-				_ = hb.eventCas(key)
+				if !inC1 {
+					_ = hb.eventCas(key)
+				}
 				var cas uint64
 				if _, cas, err = c.GetRaw(key); err == nil {
 					casOut, err = c.Remove(key, cas)
@@ -163,15 +172,26 @@ func runHLCScript(trNo int, scratch string, acts []HLCAct) ([]HLCLine, error) {
 				break
 			}
 			nwrite++
-			op, key, casOut, err := write(hb, nwrite)
+			inC1 := a.V == 1
+			op, key, casOut, err := write(hb, nwrite, inC1)
 			line.Op = op
 			line.Res = classify(err)
-			xs, cas, rerr := hb.c.GetXattrs(ctx, key, []string{"$document"})
+			rc := hb.c
+			if inC1 {
+				if ds, derr := hb.b.NamedDataStore(dsName("c1")); derr == nil {
+					rc = ds.(*rosmar.Collection)
+				}
+			}
+			xs, cas, rerr := rc.GetXattrs(ctx, key, []string{"$document"})
 			_ = xs
 			if rerr == nil {
 				line.ReadCas = int64(cas)
 			}
-			line.EvCas = int64(hb.eventCas(key))
+			if inC1 {
+				line.EvCas = line.ReadCas // the driver's feed listens to the default collection only
+			} else {
+				line.EvCas = int64(hb.eventCas(key))
+			}
 			if casOut != 0 {
 				line.Cas = int64(casOut)
 			} else {
@@ -179,6 +199,15 @@ func runHLCScript(trNo int, scratch string, acts []HLCAct) ([]HLCLine, error) {
 			}
 			if uint64(line.Cas) > lastIssued[a.B] {
 				lastIssued[a.B] = uint64(line.Cas)
+			}
+		case "drop":
+			hb := bs[a.B]
+			if hb == nil {
+				line.Kind = "skip"
+				break
+			}
+			if err := hb.b.DropDataStore(dsName("c1")); err != nil {
+				line.Res = classify(err)
 			}
 		case "meta":
 			// a write with a caller-chosen CAS into another collection of the bucket: just below (V=1) or above
